@@ -1311,3 +1311,33 @@ func ngcOK(c *NoiseGrpcConn) bool {
 //@   ensures @C03 implies(err != nil, isnil(out) && isnil(ai))
 //@   ensures @C03,C04 implies(err == nil, is[*NoiseGrpcConn](out) && as[*NoiseGrpcConn](out) == c && c.noise != nil && !c.noise.initiator &&
 //@           csinv(&c.noise.sendCipher) && csinv(&c.noise.recvCipher))
+
+// Closing and refreshing a transport never touches a stream or socket that does
+// not exist, and a refreshed transport is a new object for the same mailbox.
+//@ func (wt *websocketTransport) CloseReceive() (err error)
+//@   props C07
+//@   requires wt != nil
+
+//@ func (wt *websocketTransport) CloseSend() (err error)
+//@   props C07
+//@   requires wt != nil
+
+//@ func (gt *grpcTransport) CloseReceive() (err error)
+//@   props C07
+//@   requires gt != nil
+
+//@ func (gt *grpcTransport) CloseSend() (err error)
+//@   props C07
+//@   requires gt != nil
+
+//@ func (wt *websocketTransport) Refresh() (t ClientConnTransport)
+//@   props C07 C11
+//@   requires wt != nil
+//@   ensures @C11 is[*websocketTransport](t) && fresh(as[*websocketTransport](t)) && as[*websocketTransport](t).mailboxInfo == wt.mailboxInfo &&
+//@           as[*websocketTransport](t).receiveSocket == nil && as[*websocketTransport](t).sendSocket == nil
+
+//@ func (gt *grpcTransport) Refresh() (t ClientConnTransport)
+//@   props C07 C11
+//@   requires gt != nil
+//@   ensures @C11 is[*grpcTransport](t) && fresh(as[*grpcTransport](t)) && as[*grpcTransport](t).mailboxInfo == gt.mailboxInfo &&
+//@           same(as[*grpcTransport](t).client, gt.client) && isnil(as[*grpcTransport](t).receiveStream) && isnil(as[*grpcTransport](t).sendStream)
